@@ -604,6 +604,28 @@ def _c16():
                     ]
                     self._g.attrs["pnames"][c] = list(dict.fromkeys(pn))''', '''                    self._g.add_edge(parents[eidx][0], c, None)''', fires=["C16"])
     R("c16-order-dedup-by-set", S, '                    self._g.attrs["pnames"][c] = list(dict.fromkeys(pn))', '                    self._g.attrs["pnames"][c] = list(set(pn))', fires=["C16", "C05"])
+    R("c16-relink-new-parent-moved-last", S, '''                    pn = [
+                        parents[eidx][0] if i == eidx else i
+                        for i in self._g.attrs["pnames"][c]
+                    ]
+                    self._g.attrs["pnames"][c] = list(dict.fromkeys(pn))''', '''                    pn = [i for i in self._g.attrs["pnames"][c] if i not in (eidx, parents[eidx][0])]
+                    self._g.attrs["pnames"][c] = pn + [parents[eidx][0]]''', fires=["C16"], note="the new parent loses the deleted input's priority position")
+    R("c16-del-comp-relinks-to-last-parent", S, "                    self._g.add_edge(parents[eidx][0], c, None)", "                    self._g.add_edge(parents[eidx][-1], c, None)", fires=["C16"])
+    R("eq-del-comp-relink-early-return", S, '''        if not del_childs:
+            if childs[eidx] != -1:
+                for c in childs[eidx]:
+                    self._g.add_edge(parents[eidx][0], c, None)
+                    pn = [
+                        parents[eidx][0] if i == eidx else i
+                        for i in self._g.attrs["pnames"][c]
+                    ]
+                    self._g.attrs["pnames"][c] = list(dict.fromkeys(pn))''', '''        if del_childs or childs[eidx] == -1:
+            return
+        npar = parents[eidx][0]
+        for c in childs[eidx]:
+            self._g.add_edge(npar, c, None)
+            pn = [npar if i == eidx else i for i in self._g.attrs["pnames"][c]]
+            self._g.attrs["pnames"][c] = list(dict.fromkeys(pn))''', silent=["C16", "C05", "C14", "C15"])
     R("c16-phases-value-in-wrong-column", S, '''                    if "pwr" in self._g[n]._params:
                         rs += [""]
                         ii += [""]
